@@ -249,6 +249,14 @@ theorem loads_slot (c : LoadSt) (ops : List (Level × KVs)) (hnd : (ops.map Prod
       | some op => rfl
       | none => simp [LoadSt.load, Levels.set, Ne.symm h]
 
+/-- a load with `merge=False` followed by `merge()` is the load with `merge=True` -/
+theorem remerge_after_unmerged_load (c : LoadSt) (l : Level) (d : KVs) :
+    (c.loadUnmerged l d).remerge = c.load l d := rfl
+
+/-- deferred merges commute with everything that re-merges: any later merging load shows the deferred level too -/
+theorem unmerged_then_load (c : LoadSt) (l l' : Level) (d d' : KVs) :
+    ((c.loadUnmerged l d).load l' d').cache = view (((c.slots.set l d)).set l' d') := rfl
+
 /-- un-setting a file level and loading again drops the level: its slot is empty and the cache is the merge of
     the remaining levels -/
 theorem unload_then_load_drops_level (c : LoadSt) (l : Level) :
